@@ -119,16 +119,44 @@ impl<'a> MessageParser<'a> {
         let field_content = self.extract_field(&full_tag, false)?;
 
         // Use parse_with_variant for enum fields
-        T::parse_with_variant(&field_content, Some(&variant), Some(base_tag)).map_err(|e| {
-            ParseError::InvalidFieldFormat(Box::new(InvalidFieldFormatError {
-                field_tag: full_tag,
+        let parsed = T::parse_with_variant(&field_content, Some(&variant), Some(base_tag))
+            .map_err(|e| {
+                ParseError::InvalidFieldFormat(Box::new(InvalidFieldFormatError {
+                    field_tag: full_tag.clone(),
+                    component_name: "field".to_string(),
+                    value: field_content.clone(),
+                    format_spec: "field format".to_string(),
+                    position: Some(self.position),
+                    inner_error: e.to_string(),
+                }))
+            })?;
+        self.check_variant_preserved(parsed, &full_tag, field_content)
+    }
+
+    /// The option letter written in the message decides the variant: a field whose content was
+    /// only accepted as some other option (or whose option the field does not have) is invalid.
+    fn check_variant_preserved<T: SwiftField>(
+        &self,
+        parsed: T,
+        full_tag: &str,
+        content: String,
+    ) -> Result<T, ParseError> {
+        if parsed
+            .to_swift_string()
+            .starts_with(&format!(":{}:", full_tag))
+        {
+            return Ok(parsed);
+        }
+        Err(ParseError::InvalidFieldFormat(Box::new(
+            InvalidFieldFormatError {
+                field_tag: full_tag.to_string(),
                 component_name: "field".to_string(),
-                value: field_content,
+                value: content,
                 format_spec: "field format".to_string(),
                 position: Some(self.position),
-                inner_error: e.to_string(),
-            }))
-        })
+                inner_error: format!("content is not valid for option {}", full_tag),
+            },
+        )))
     }
 
     /// Parse an optional field with variant detection
@@ -143,15 +171,17 @@ impl<'a> MessageParser<'a> {
                     let parsed = T::parse_with_variant(&content, Some(&variant), Some(base_tag))
                         .map_err(|e| {
                             ParseError::InvalidFieldFormat(Box::new(InvalidFieldFormatError {
-                                field_tag: full_tag,
+                                field_tag: full_tag.clone(),
                                 component_name: "field".to_string(),
-                                value: content,
+                                value: content.clone(),
                                 format_spec: "field format".to_string(),
                                 position: Some(self.position),
                                 inner_error: e.to_string(),
                             }))
                         })?;
-                    Ok(Some(parsed))
+                    Ok(Some(
+                        self.check_variant_preserved(parsed, &full_tag, content)?,
+                    ))
                 } else {
                     Ok(None)
                 }
